@@ -1,3 +1,8 @@
+import os, importlib.util
+def _load(pid):
+    sp = importlib.util.spec_from_file_location('spec_' + pid, os.path.join(os.path.dirname(os.path.abspath(__file__)), '..', pid, 'spec.py'))
+    m = importlib.util.module_from_spec(sp); sp.loader.exec_module(m)
+    return m
 BASE = ['@world/world_base.c', '@world/libc_models.c', '@world/world_err.c', '@harness/C09/stubs.c']
 def jobs(tier, ctx):
     out = []
@@ -8,4 +13,21 @@ def jobs(tier, ctx):
                         desc='process_io with 0..1 events (%s) on a connection table that is NULL (idle driver), has an empty console slot, or is populated: no memory error' % ('timer wake-up' if kind == 0 else 'console completion'),
                         inputs='number of events, event type bits, table shape, console queue present, console reconnect outcome',
                         assumptions=['user socket events (get_user_data), listening ports and LPC sockets are not driven by this harness; flush_message and init_console_user are contract stubs']))
+    # a failing call_out does not take the other timers with it: the sweep lemma of C10 with an error injected into any subset of
+    # the firings (both branches of the per-call recovery point): every other due entry still fires exactly once
+    for j in _load('C10').jobs(tier, ctx):
+        if j['name'].startswith('L2_sweep'):
+            j = dict(j); j['name'] = 'callout_errors.' + j['name']
+            j['desc'] = 'call_out() sweep with an error raised in any subset of the firings: the remaining due entries fire exactly once, in order, none repeated; the wheel stays consistent'
+            out.append(j)
+    # "only the failing object's heart beat is switched off": while the other periodic tasks of a tick run (call_outs, reset /
+    # clean_up), no heart beat is marked in progress (error_handler() switches off current_heart_beat)
+    n = 0
+    for j in _load('C11').jobs(tier, ctx):
+        if '.act0.' in j['name'] or '.act3.' in j['name']:
+            j = dict(j); j['name'] = 'tick_tasks.' + j['name']
+            j['desc'] = 'call_heart_beat() round with reset and call_out timers enabled: when look_for_objects_to_swap() and call_out() run, current_heart_beat is 0 (also after a heart beat that raised an error or changed the table)'
+            out.append(j); n += 1
+            if tier == 'quick' and n >= 6:
+                break
     return out
